@@ -387,6 +387,12 @@ FIXED += [
         _c("Prog", "", [("a", ("sym", "Stmt")), ("b", ("sym", "Stmt"))]),
         _c("Skip", "Stmt", [("v", I01)]), _c("Not", "Stmt", [("s", ("sym", "Stmt"))]),
         _c("Blk", "Stmt", [("p", ("sym", "Prog"))])]},
+    # concrete start symbol that is recursive only indirectly, through a sized list of an abstract type
+    {"id": "blocks", "start": "Block", "classes": [
+        _c("Stmt", "", abstract=True),
+        _c("Block", "", [("stmts", ("ann", ("list", ("sym", "Stmt")), ("ListSize", 1, 2)))]),
+        _c("Skip", "Stmt", [("v", I01)]),
+        _c("If", "Stmt", [("then", ("sym", "Block")), ("els", ("sym", "Block"))])]},
     # the shallowest derivation of the start symbol goes through a Union whose members differ in depth
     {"id": "unionstart", "start": "S", "classes": [
         _c("S", "", abstract=True), _c("Lit", "", [("v", I01)]), _c("Deep", "", [("l", ("sym", "S"))]),
